@@ -68,6 +68,9 @@ class Contract:
     harness: Optional[object] = None          # optional callable(interp) -> custom verification
     inline: bool = False                      # callers execute the body instead of using the contract
     lemmas: list = field(default_factory=list)  # [(lemma name, {lemma var: contract param})] imported Lean theorems
+    post: dict = field(default_factory=dict)    # modified parameter -> L1 expression for its state at normal return
+    unchanged_on_raise: list = field(default_factory=list)   # modified parameters that must be unchanged when the call raises
+    no_differential: bool = False
 
     def sort_of(self, p):
         for n, s in self.params:
